@@ -38,6 +38,14 @@ PROTOCOL_MODELS_DOC = [
 ]
 
 
+def struct_field_types(src, name):
+    m = re.search(r"pub struct %s(?:<[^>]*>)? \{(.*?)\n\}" % name, src, re.S)
+    if not m:
+        raise EncodingError("struct %s not found" % name)
+    body = re.sub(r"//[^\n]*", "", m.group(1))
+    return dict(re.findall(r"^\s*(?:pub(?:\([^)]*\))? )?(\w+):\s*([^,\n]+),?\s*$", body, re.M))
+
+
 def struct_fields(src, name):
     m = re.search(r"pub struct %s(?:<[^>]*>)? \{(.*?)\n\}" % name, src, re.S)
     if not m:
@@ -54,6 +62,8 @@ class Proto:
         sp = open(os.path.join(REPO, "src/internal/stringpool.rs")).read()
         self.pf = struct_fields(pk, "Package")
         self.sf = struct_fields(sp, "StringPool")
+        self.pft = struct_field_types(pk, "Package")
+        self.sft = struct_field_types(sp, "StringPool")
         for need in ("comp", "summary_info", "is_summary_info_modified", "string_pool", "finisher"):
             if need not in self.pf:
                 raise EncodingError("Package has no field %s (protocol model out of date)" % need)
@@ -65,10 +75,12 @@ class Proto:
     def fresh_state(self, ex, finisher_some, tag):
         s = self.ctx.fresh_bool("summary_dirty_" + tag)
         p = self.ctx.fresh_bool("pool_dirty_" + tag)
-        pool = [OpaqueV("pool." + f) for f in self.sf]
+        # any OTHER boolean field of the two structs is part of the arbitrary pre-state too (a second dirty flag, a
+        # cache-valid bit, ...): one fresh boolean each
+        pool = [BoolV(self.ctx.fresh_bool("pool_%s_%s" % (f, tag)).term) if self.sft.get(f, "").strip() == "bool" else OpaqueV("pool." + f) for f in self.sf]
         pool[self.sf.index("is_modified")] = BoolV(p.term)
         ex.new_obj("pool", pool)
-        pkg = [OpaqueV("pkg." + f) for f in self.pf]
+        pkg = [BoolV(self.ctx.fresh_bool("pkg_%s_%s" % (f, tag)).term) if self.pft.get(f, "").strip() == "bool" else OpaqueV("pkg." + f) for f in self.pf]
         pkg[self.pf.index("comp")] = EnumV(variant=1, fields=[OpaqueV("comp")])
         pkg[self.pf.index("summary_info")] = OpaqueV("summary")
         pkg[self.pf.index("is_summary_info_modified")] = BoolV(s.term)
@@ -158,6 +170,53 @@ class Proto:
                 return [(pc, events, EnumV(variant=0, fields=[r.fields[0] if r.fields else TupleV([])]))]
             return [(pc, events, EnumV(variant=1, fields=[r]))]
 
+        def m_result_closure(ex, callee, args, pc, events):
+            """Result::and_then / map / or_else / map_err with a closure: the closure's MIR is run on the payload"""
+            which = re.search(r"Result::<.*>::(and_then|map|or_else|map_err)::<", callee).group(1)
+            r = ex.load(args[0])
+            if not isinstance(r, EnumV):
+                raise EncodingError("Result::%s on %r" % (which, r))
+            is_ok = r.variant in (0, "Ok")
+            if (which in ("and_then", "map")) != is_ok:
+                return [(pc, events, r)]                      # passes through untouched
+            mm = re.search(r"\{closure@([^}]*)\}", callee)
+            tg = [f for n, fs in P.mir.fns.items() for f in fs if f.args and mm and ("{closure@%s}" % mm.group(1)) in f.args[0][1]]
+            if len(tg) != 1:
+                raise EncodingError("closure of Result::%s not found (%s)" % (which, callee[-80:]))
+            payload = r.fields[0] if r.fields else TupleV([])
+            res = []
+            for o in ex.run(tg[0], [ex.load(args[1]), payload] if len(tg[0].args) == 2 else [ex.load(args[1])], pc, events, 3):
+                if o.kind == "return":
+                    v = o.value
+                    if which == "map":
+                        v = EnumV(variant=0, fields=[v])
+                    elif which == "map_err":
+                        v = EnumV(variant=1, fields=[v])
+                    res.append((o.pc, o.events, v, o.heap))
+                elif o.kind == "panic":
+                    res.append((o.pc, o.events, o, o.heap))
+            return res
+
+        def m_result_is(ex, callee, args, pc, events):
+            r = ex.load(args[0])
+            while isinstance(r, RefV):
+                r = ex.load(r.target)
+            if not isinstance(r, EnumV):
+                raise EncodingError("Result::is_ok/is_err on %r" % (r,))
+            ok = r.variant in (0, "Ok")
+            want_ok = callee.endswith("is_ok")
+            return [(pc, events, BoolV("true" if ok == want_ok else "false", ok == want_ok))]
+
+        def m_result_and_or(ex, callee, args, pc, events):
+            a, b = ex.load(args[0]), ex.load(args[1])
+            is_and = "::and::<" in callee
+            if not isinstance(a, EnumV):
+                raise EncodingError("Result::and/or on %r" % (a,))
+            a_ok = a.variant in (0, "Ok")
+            if is_and:
+                return [(pc, events, b if a_ok else a)]
+            return [(pc, events, a if a_ok else b)]
+
         def m_from_residual(ex, callee, args, pc, events):
             return [(pc, events, EnumV(variant=1, fields=[OpaqueV("io::Error")]))]
 
@@ -227,6 +286,8 @@ class Proto:
             (r"Option::<.*>::as_(mut|ref)$", m_as_mut),
             (r"Option::<.*>::unwrap$", m_unwrap),
             (r"Box::<FinishImpl>::new$", m_box_new),
+            (r"Result::<.*>::(and_then|map|or_else|map_err)::<", m_result_closure), (r"Result::<.*>::and::<|Result::<.*>::or::<", m_result_and_or),
+            (r"Result::<.*>::is_(ok|err)$", m_result_is),
             (r"as Try>::branch$", m_branch),
             (r"as FromResidual<.*>>::from_residual$", m_from_residual),
             (r"^encode$|streamname::encode$", m_encode2),
